@@ -4,13 +4,24 @@ import re
 
 
 class Facts:
-    def __init__(self, raw, meta=None):
+    def __init__(self, raw, meta=None, canonicalise=True):
         self.raw = raw
         self.meta = meta or {}
         self.bodies = raw["bodies"]
         self.by_path = {}
         for b in self.bodies:
+            if not b.get("_loops_normalised"):
+                try:
+                    normalise_loops(b)
+                except Exception:
+                    pass
+                b["_loops_normalised"] = True
             self.by_path.setdefault(b["path"], []).append(b)
+        if canonicalise:
+            try:
+                canonicalise_locals(self.bodies)
+            except Exception:
+                pass
         self.adts = {a["path"]: a for a in raw["adts"]}
         self.impls = raw["impls"]
         self.repo = (meta or {}).get("repo", "/repo")
@@ -347,3 +358,233 @@ def pp_body(n, ind=0):
     ln = n.get("sp", [0])[0]
     out.append(pad + pp(n) + "    // L%d" % ln)
     return out
+
+
+# ---- loop normal form ----------------------------------------------------------------------------------------------------------
+def _only(block, kind):
+    """block consists of a single `break` (kind 'Break', no value, innermost target) / `return e` (kind 'Ret')."""
+    x = block
+    while isinstance(x, dict) and x.get("k") == "Block":
+        items = list(x.get("stmts") or []) + ([x["expr"]] if x.get("expr") is not None else [])
+        if len(items) != 1:
+            return None
+        x = items[0]
+        if x.get("k") in ("ExprS", "Semi"):
+            x = x["e"]
+    if isinstance(x, dict) and x.get("k") == kind:
+        return x
+    return None
+
+
+def _not(c):
+    if c.get("k") == "Un" and c.get("op") == "Not":
+        return c["e"]
+    return {"k": "Un", "op": "Not", "e": c, "ty": "bool", "sp": c.get("sp")}
+
+
+def normalise_loops(body):
+    """`loop { if C { break } REST }`  ->  `while !C { REST }`;
+    a function body ending in `loop { if C { return E } REST }`  ->  `while !C { REST }` followed by the tail expression E.
+    (Equivalent control flow; lets every rule treat the three spellings of a conditional loop alike.)"""
+    def stmts_of(loop):
+        blk = loop.get("body")
+        if not isinstance(blk, dict) or blk.get("k") != "Block":
+            return None
+        return blk
+
+    PURE_METHODS = {"abs", "real", "imaginary", "clone", "len", "modulus", "norm", "recip", "powi", "powf", "sqrt", "signum", "is_sign_positive", "is_sign_negative",
+                    "max", "min", "is_empty", "unwrap", "ln", "log2", "ceil", "floor"}
+
+    def pure(e):
+        for x in walk(e):
+            k = x.get("k")
+            if k == "MCall" and x["name"] not in PURE_METHODS:
+                return False
+            if k == "Call" and ("ovl" in x or not (callee(x) or "").startswith(("num_traits", "std::convert", "nalgebra::ComplexField", "core::convert"))):
+                return False
+            if k in ("Assign", "AssignOp", "Closure", "Loop", "While", "For", "Ret", "Break", "Continue", "Try"):
+                return False
+        return True
+
+    def subst(e, mapping):
+        """Deep copy of e with Local nodes replaced by (copies of) their defining expressions."""
+        if isinstance(e, dict):
+            if e.get("k") == "Local" and e.get("id") in mapping:
+                return subst(mapping[e["id"]], mapping)
+            return {k: subst(v, mapping) for k, v in e.items()}
+        if isinstance(e, list):
+            return [subst(x, mapping) for x in e]
+        return e
+
+    def first_if(blk):
+        """(statements to keep in the body, the exit `if`, substitution for pure `let`s that precede it)."""
+        items = list(blk.get("stmts") or [])
+        lets = {}
+        for i, st in enumerate(items + ([blk["expr"]] if blk.get("expr") is not None else [])):
+            if st.get("k") == "LetS" and st["pat"].get("k") == "Bind" and "init" in st and "Mut)" not in st["pat"].get("mode", "") and pure(st["init"]):
+                lets[st["pat"]["id"]] = st["init"]
+                continue
+            e = st["e"] if st.get("k") in ("ExprS", "Semi") else st
+            if isinstance(e, dict) and e.get("k") == "If" and "e" not in e:
+                return st, e, lets
+            break
+        return None, None, None
+
+    def rewrite(loop, allow_return):
+        blk = stmts_of(loop)
+        if blk is None:
+            return None
+        first, iff, lets = first_if(blk)
+        if iff is None:
+            return None
+        brk = _only(iff["t"], "Break")
+        ret = _only(iff["t"], "Ret") if allow_return else None
+        if brk is not None and "e" not in brk and brk.get("target") in (None, loop.get("id")):
+            pass
+        elif ret is not None:
+            pass
+        else:
+            return None
+        # no other break out of this loop may carry a value
+        rest_stmts = [x for x in (blk.get("stmts") or []) if x is not first]
+        new_body = {"k": "Block", "stmts": rest_stmts, "sp": blk.get("sp"), "ty": "()"}
+        if blk.get("expr") is not None and blk["expr"] is not first:
+            new_body["expr"] = blk["expr"]
+        cond = _not(iff["c"])
+        if lets:
+            cond = subst(cond, lets)
+        wh = {"k": "While", "id": loop.get("id"), "c": cond, "body": new_body, "ty": "()", "sp": loop.get("sp")}
+        return wh, (ret["e"] if (ret is not None and brk is None) else None)
+
+    def visit(node, is_fn_tail):
+        if isinstance(node, dict):
+            if node.get("k") == "Block":
+                items = node.get("stmts") or []
+                for i, st in enumerate(items):
+                    e = st["e"] if st.get("k") in ("ExprS", "Semi") else None
+                    if isinstance(e, dict) and e.get("k") == "Loop":
+                        r = rewrite(e, False)
+                        if r is not None and r[1] is None:
+                            st["e"] = r[0]
+                tail = node.get("expr")
+                if isinstance(tail, dict) and tail.get("k") == "Loop":
+                    r = rewrite(tail, is_fn_tail)
+                    if r is not None:
+                        wh, ret_e = r
+                        if ret_e is None:
+                            node["expr"] = wh
+                        else:
+                            node["stmts"] = list(items) + [{"k": "Semi", "e": wh, "sp": wh.get("sp")}]
+                            node["expr"] = ret_e
+            for k, v in list(node.items()):
+                if k == "expr" and node.get("k") == "Block":
+                    visit(v, is_fn_tail)
+                elif isinstance(v, (dict, list)):
+                    visit(v, False)
+        elif isinstance(node, list):
+            for x in node:
+                visit(x, False)
+    visit(body.get("body"), True)
+
+
+# ---- reference names for renamed locals ----------------------------------------------------------------------------------------
+def _anon(e):
+    """Pretty-printed expression with every local name replaced by `_` (rename-invariant)."""
+    if isinstance(e, dict):
+        if e.get("k") == "Local":
+            return dict(e, name="_")
+        return {k: _anon(v) for k, v in e.items()}
+    if isinstance(e, list):
+        return [_anon(x) for x in e]
+    return e
+
+
+def local_fingerprints(body):
+    """[{name, fp}] for the parameters and `let` bindings of a body; fp = (kind/position, type, mutability, loop depth, anonymised initialiser)."""
+    out = []
+    seen = set()
+
+    def binds(p):
+        if isinstance(p, dict):
+            if p.get("k") == "Bind":
+                yield p
+            for v in p.values():
+                if isinstance(v, (dict, list)):
+                    yield from binds(v)
+        elif isinstance(p, list):
+            for x in p:
+                yield from binds(x)
+    for k, prm in enumerate(body.get("params", [])):
+        for j, bd in enumerate(binds(prm)):
+            out.append({"name": bd["name"], "fp": "param#%d.%d|%s" % (k, j, bd.get("ty"))})
+            seen.add(bd["id"])
+
+    def visit(n, depth):
+        if isinstance(n, dict):
+            k = n.get("k")
+            if k == "LetS" and n["pat"].get("k") == "Bind" and n["pat"]["id"] not in seen:
+                bd = n["pat"]
+                seen.add(bd["id"])
+                init = pp(_anon(n["init"]))[:200] if "init" in n else ""
+                out.append({"name": bd["name"], "fp": "let|%s|%s|d%d|%s" % (bd.get("ty"), "mut" if "Mut)" in bd.get("mode", "") else "imm", depth, init)})
+            nd = depth + 1 if k in ("While", "For", "Loop") else depth
+            if k == "Closure":
+                nd = depth + 10
+            for v in n.values():
+                if isinstance(v, (dict, list)):
+                    visit(v, nd)
+        elif isinstance(n, list):
+            for x in n:
+                visit(x, depth)
+    visit(body.get("body"), 0)
+    return out
+
+
+_LOCAL_REF = None
+
+
+def canonicalise_locals(bodies):
+    """Give renamed locals their reference names back: a local whose name is unknown to the reference (refs/locals.json, written from the tree
+    the instance tables were confirmed on) but whose rename-invariant fingerprint matches exactly one reference local that has disappeared is
+    renamed to it (consistently, per function).  Purely a change of names: the analysed program is the same."""
+    global _LOCAL_REF
+    import json
+    if _LOCAL_REF is None:
+        p = os.path.join(os.path.dirname(os.path.dirname(os.path.abspath(__file__))), "refs", "locals.json")
+        _LOCAL_REF = json.load(open(p)) if os.path.exists(p) else {}
+    for b in bodies:
+        if b.get("_locals_canonical"):
+            continue
+        b["_locals_canonical"] = True
+        ref = _LOCAL_REF.get(b["path"] + "|" + (b.get("impl_self") or "") + "|" + (b.get("impl_trait") or ""))
+        if not ref:
+            continue
+        cur = local_fingerprints(b)
+        cur_names = {c["name"] for c in cur}
+        ref_names = {r["name"] for r in ref}
+        missing = [r for r in ref if r["name"] not in cur_names]
+        extra = [c for c in cur if c["name"] not in ref_names]
+        if not missing or not extra:
+            continue
+        ren = {}
+        for r in missing:
+            c = [x for x in extra if x["fp"] == r["fp"] and x["name"] not in ren]
+            m = [x for x in missing if x["fp"] == r["fp"]]
+            if len(c) == 1 and len(m) == 1:
+                ren[c[0]["name"]] = r["name"]
+        if not ren:
+            continue
+        b["_renamed_locals"] = dict(ren)
+
+        def apply(n):
+            if isinstance(n, dict):
+                if n.get("k") in ("Local", "Bind") and n.get("name") in ren:
+                    n["name"] = ren[n["name"]]
+                for v in n.values():
+                    if isinstance(v, (dict, list)):
+                        apply(v)
+            elif isinstance(n, list):
+                for x in n:
+                    apply(x)
+        apply(b.get("params"))
+        apply(b.get("body"))
